@@ -44,11 +44,16 @@ pub struct Config {
     pub pct_horizon: u32,
     /// called first thing on every simulated thread (scenario thread and workers)
     pub thread_start: Option<fn()>,
+    /// wraps the whole body of every simulated thread (worker i = thread i, external caller x =
+    /// thread 16 + x): must call the given closure exactly once, possibly on another stack (the
+    /// harness uses this to put simulated threads on stacks whose addresses it decides); with a
+    /// wrapper the OS thread itself only needs a small stack
+    pub thread_wrap: Option<fn(usize, &mut dyn FnMut())>,
 }
 
 impl Default for Config {
     fn default() -> Self {
-        Config { workers: 1, strategy: Strategy::Sequential, seed: 0, replay: None, step_budget: 5_000_000, stack: 64 << 20, pct_horizon: 400, thread_start: None }
+        Config { workers: 1, strategy: Strategy::Sequential, seed: 0, replay: None, step_budget: 5_000_000, stack: 64 << 20, pct_horizon: 400, thread_start: None, thread_wrap: None }
     }
 }
 
@@ -632,20 +637,25 @@ pub(crate) fn inject_and_wait(me: usize, job: JobRef, latch: &AtomicBool) {
 /// (so that even thread start-up is serialised).  Lazy: called at the first entry into the pool,
 /// like the real global registry.
 pub(crate) fn ensure_workers() {
-    let (n, stack, hook) = {
+    let (n, stack, hook, wrap) = {
         let mut g = lock();
         let sim = g.as_mut().expect("simulation active");
         if sim.workers_started {
             return;
         }
         sim.workers_started = true;
-        (sim.n, sim.cfg.stack, sim.cfg.thread_start)
+        (sim.n, sim.cfg.stack, sim.cfg.thread_start, sim.cfg.thread_wrap)
     };
     for i in 0..n {
         let h = std::thread::Builder::new()
             .name(format!("simW{i}"))
-            .stack_size(stack)
-            .spawn(move || worker_main(i, hook))
+            .stack_size(if wrap.is_some() { 256 << 10 } else { stack })
+            .spawn(move || {
+                if let Some(h) = hook {
+                    h();
+                }
+                call_wrapped(wrap, i, move || worker_main(i, None))
+            })
             .expect("spawn simulated worker");
         let mut g = lock();
         loop {
@@ -661,6 +671,22 @@ pub(crate) fn ensure_workers() {
 }
 
 static HANDLES: Mutex<Vec<std::thread::JoinHandle<()>>> = Mutex::new(Vec::new());
+
+fn call_wrapped(wrap: Option<fn(usize, &mut dyn FnMut())>, tid: usize, f: impl FnOnce()) {
+    match wrap {
+        None => f(),
+        Some(w) => {
+            let mut once = Some(f);
+            let mut body = || {
+                if let Some(f) = once.take() {
+                    f()
+                }
+            };
+            w(tid, &mut body);
+            assert!(once.is_none(), "thread_wrap must call the body");
+        }
+    }
+}
 
 fn worker_main(i: usize, hook: Option<fn()>) {
     if let Some(h) = hook {
@@ -713,6 +739,7 @@ pub fn run_multi<R: Send, F: FnOnce() -> R + Send>(cfg: Config, fs: Vec<F>) -> (
     let n = cfg.workers;
     let stack = cfg.stack;
     let hook = cfg.thread_start;
+    let wrap = cfg.thread_wrap;
     let mut rng = Rng(cfg.seed ^ 0x5DEECE66D);
     let mut prio = [0u32; MAX_THREADS];
     for p in prio.iter_mut() {
@@ -763,11 +790,13 @@ pub fn run_multi<R: Send, F: FnOnce() -> R + Send>(cfg: Config, fs: Vec<F>) -> (
                 let me = EXT_BASE + x;
                 std::thread::Builder::new()
                     .name(format!("simX{x}"))
-                    .stack_size(stack)
+                    .stack_size(if wrap.is_some() { 256 << 10 } else { stack })
                     .spawn_scoped(s, move || {
                         if let Some(h) = hook {
                             h();
                         }
+                        let mut out = None;
+                        call_wrapped(wrap, me, || out = Some((|| {
                         TID.with(|t| t.set(Some(me)));
                         if k > 1 {
                             // several callers: wait to be scheduled for the first time
@@ -789,6 +818,8 @@ pub fn run_multi<R: Send, F: FnOnce() -> R + Send>(cfg: Config, fs: Vec<F>) -> (
                         leave(me);
                         TID.with(|t| t.set(None));
                         r
+                        })()));
+                        out.expect("body ran")
                     })
                     .expect("spawn scenario thread")
             })
